@@ -30,6 +30,42 @@ use std::mem::ManuallyDrop;
 use std::sync::atomic::{AtomicUsize, Ordering};
 
 static XDROPS: AtomicUsize = AtomicUsize::new(0);
+/// handles that values dying in the current release "own" to peers dying with
+/// them: released by the destructors themselves (a destructor of a type with
+/// `Drop` pops up to two per call), i.e. while the group is being torn down
+static mut POOL: Vec<(usize, fn(usize))> = Vec::new();
+/// destructor calls to let pass before one panics (usize::MAX: never); only
+/// counted while a judged release is running
+static PANIC_IN: AtomicUsize = AtomicUsize::new(usize::MAX);
+static ARMED: AtomicUsize = AtomicUsize::new(0);
+static PANICKED: AtomicUsize = AtomicUsize::new(0);
+
+#[allow(static_mut_refs)]
+fn dtor_hook() {
+    XDROPS.fetch_add(1, Ordering::Relaxed);
+    if ARMED.load(Ordering::Relaxed) == 0 {
+        return;
+    }
+    for _ in 0..2 {
+        let e = unsafe { POOL.pop() };
+        if let Some((p, f)) = e {
+            f(p);
+        }
+    }
+    let k = PANIC_IN.load(Ordering::Relaxed);
+    if k != usize::MAX && !std::thread::panicking() {
+        if k == 0 {
+            PANIC_IN.store(usize::MAX, Ordering::Relaxed);
+            PANICKED.store(1, Ordering::Relaxed);
+            std::panic::panic_any(crate::interp::Injected);
+        }
+        PANIC_IN.store(k - 1, Ordering::Relaxed);
+    }
+}
+
+fn release_raw<T>(p: usize) {
+    drop(unsafe { Rc::<T>::from_raw(p as *const T) });
+}
 
 pub trait Payload: Sized + Clone + 'static {
     const NAME: &'static str;
@@ -52,7 +88,7 @@ impl Payload for () {
 pub struct ZDrop;
 impl Drop for ZDrop {
     fn drop(&mut self) {
-        XDROPS.fetch_add(1, Ordering::Relaxed);
+        dtor_hook();
     }
 }
 impl Payload for ZDrop {
@@ -109,7 +145,7 @@ pub struct Packed13 {
 }
 impl Drop for Packed13 {
     fn drop(&mut self) {
-        XDROPS.fetch_add(1, Ordering::Relaxed);
+        dtor_hook();
     }
 }
 impl Payload for Packed13 {
@@ -150,7 +186,7 @@ pub struct Big9kDrop {
 }
 impl Drop for Big9kDrop {
     fn drop(&mut self) {
-        XDROPS.fetch_add(1, Ordering::Relaxed);
+        dtor_hook();
     }
 }
 impl Payload for Big9kDrop {
@@ -199,7 +235,7 @@ impl Payload for A256 {
 pub struct A4096(u32, String);
 impl Drop for A4096 {
     fn drop(&mut self) {
-        XDROPS.fetch_add(1, Ordering::Relaxed);
+        dtor_hook();
     }
 }
 impl Payload for A4096 {
@@ -282,6 +318,10 @@ pub struct TypesCase {
     pub layout_seed: u64,
     pub xops: Vec<XOp>,
     pub cleanup: Vec<u16>,
+    /// types with a destructor: the (k+1)-th destructor call made by the library
+    /// during a release panics (once per case)
+    #[serde(default)]
+    pub panic_in: Option<u8>,
 }
 
 pub const L_ZST: u32 = 0;
@@ -304,7 +344,9 @@ pub const L_ADOPTED: u32 = 16;
 pub const L_SELF: u32 = 17;
 pub const L_UNWRAP_OK: u32 = 18;
 pub const L_WEAK_DEAD: u32 = 19;
-pub const NAMES: [&str; 20] = [
+pub const L_DTOR_RELEASE: u32 = 20;
+pub const L_PANIC: u32 = 21;
+pub const NAMES: [&str; 22] = [
     "zero_sized_payload",
     "payload_size_not_multiple_of_8",
     "payload_larger_than_a_page",
@@ -325,6 +367,8 @@ pub const NAMES: [&str; 20] = [
     "self_adoption",
     "try_unwrap_ok",
     "weak_used_after_death",
+    "destructor_released_a_handle_to_a_peer_dying_with_it",
+    "destructor_panicked_during_a_release",
 ];
 
 fn pick(sel: u16, len: usize) -> Option<usize> {
@@ -349,6 +393,7 @@ struct X<T: Payload> {
     labels: u64,
     adoptions: u64,
     max_objs: usize,
+    panicked: bool,
 }
 
 fn fmt_set(v: &[Oid]) -> String {
@@ -390,6 +435,7 @@ impl<T: Payload> X<T> {
             pending: vec![],
             labels,
             adoptions: 0,
+            panicked: false,
             max_objs: if sz > 60_000 { 40 } else if sz > 4096 { 150 } else { 700 },
         }
     }
@@ -457,6 +503,7 @@ impl<T: Payload> X<T> {
     /// The handle instance to `t` has already been removed from the model;
     /// `release` makes the library release it.
     fn judged_release(&mut self, t: Oid, what: &str, release: impl FnOnce()) {
+        let _ = &release;
         let expected: Vec<Oid> = if self.m.objs[t as usize].st != St::Alive {
             vec![]
         } else if self.m.strong(t) == 0 {
@@ -472,7 +519,55 @@ impl<T: Payload> X<T> {
         }
         let d0 = XDROPS.load(Ordering::Relaxed);
         exec::set_msg(&format!("{} (handle to object {}, payload {})", what, t, T::NAME));
-        release();
+        // handles of dying owners to peers dying with them are released by the
+        // destructors themselves (types with a destructor only)
+        if T::COUNTS {
+            for &x in &expected {
+                let mut k = 0;
+                while k < self.owned[x as usize].len() {
+                    let y = self.m.objs[x as usize].slots[k];
+                    if expected.contains(&y) {
+                        let p = self.owned[x as usize].remove(k);
+                        self.m.objs[x as usize].slots.remove(k);
+                        #[allow(static_mut_refs)]
+                        unsafe {
+                            POOL.push((p as usize, release_raw::<T>))
+                        };
+                        self.lab(L_DTOR_RELEASE);
+                    } else {
+                        k += 1;
+                    }
+                }
+            }
+        }
+        ARMED.store(1, Ordering::Relaxed);
+        let r = std::panic::catch_unwind(std::panic::AssertUnwindSafe(release));
+        ARMED.store(0, Ordering::Relaxed);
+        shared().phase = Phase::Harness as u32;
+        arena::st().track = false;
+        #[allow(static_mut_refs)]
+        unsafe {
+            // not reached by a destructor (a panic cut the teardown short): leaked
+            POOL.clear()
+        };
+        let fired = PANICKED.swap(0, Ordering::Relaxed) != 0;
+        match r {
+            Err(e) => {
+                if !fired {
+                    let loc = crate::interp::take_panic_loc();
+                    std::mem::forget(e);
+                    violate(View::LibPanic, &format!("{}: the library panicked: {} (payload {})", what, loc, T::NAME));
+                }
+                std::mem::forget(e);
+                self.lab(L_PANIC);
+                self.panicked = true;
+            }
+            Ok(()) => {
+                if fired {
+                    violate(View::PanicSafe, &format!("{}: a destructor panicked but the panic did not reach the caller (payload {})", what, T::NAME));
+                }
+            }
+        }
         let ran = XDROPS.load(Ordering::Relaxed) - d0;
         // observed deaths
         let mut extra = vec![];
@@ -1077,6 +1172,8 @@ fn run_typed<T: Payload>(c: &TypesCase) {
     crate::interp::install_panic_hook();
     cactusref::__verif::reset();
     XDROPS.store(0, Ordering::Relaxed);
+    PANIC_IN.store(c.panic_in.map(|k| k as usize).unwrap_or(usize::MAX), Ordering::Relaxed);
+    PANICKED.store(0, Ordering::Relaxed);
     let sh = shared();
     let live0 = arena::st().live;
     let mut x = X::<T>::new();
@@ -1124,7 +1221,7 @@ fn run_typed<T: Payload>(c: &TypesCase) {
         }
     }
     shared().phase = prev;
-    if all_gone {
+    if all_gone && !x.panicked {
         x.lab(L_LEAK_CHECK);
         let live = arena::st().live;
         if live != live0 {
@@ -1190,7 +1287,18 @@ impl Kind for TypesKind {
     type Case = TypesCase;
     fn strategy(id: &str, tier: Tier, _variant: u64) -> BoxedStrategy<TypesCase> {
         let n = if tier == Tier::Thorough { 60 } else { 40 };
-        (0u8..NTYPES, any::<u64>(), vec(xop_strategy(id), 1..n), vec(any::<u16>(), 1..4)).prop_map(|(ty, layout_seed, xops, cleanup)| TypesCase { ty, layout_seed, xops, cleanup }).boxed()
+        let panic_pct: u32 = match id {
+            "C11" => 60,
+            "C02" | "C03" | "C01" => 20,
+            _ => 0,
+        };
+        (0u8..NTYPES, any::<u64>(), vec(xop_strategy(id), 1..n), vec(any::<u16>(), 1..4), (0u32..100, 0u8..12))
+            .prop_map(move |(ty, layout_seed, xops, cleanup, (pp, pk))| {
+                // C11: only the types that have a destructor are interesting
+                let ty = if panic_pct >= 50 { [1u8, 5, 7, 10, 1, 5, 7, 10, 1, 5, 7, 10][(ty % 12) as usize] } else { ty };
+                TypesCase { ty, layout_seed, xops, cleanup, panic_in: if pp < panic_pct { Some(pk) } else { None } }
+            })
+            .boxed()
     }
     fn run(id: &str, _tier: Tier, c: &TypesCase) -> CaseResult {
         let views = props::prop(id).map(|p| p.views).unwrap_or(0) | View::Crash.bit() | View::Mem.bit() | View::LibPanic.bit();
